@@ -13,6 +13,7 @@ from . import C08
 
 ID = "C20"
 PROPS_FILE = "Props/C20.v"
+PROPS_EXTRA = ["Props/C20e2e.v"]   # glue: linter total on compiled / scaled recipes (Proofs/GlueLint.v)
 GEN_DEPS = ["GenUnits", "GenConsts"]
 ALLOWED_AXIOMS: List[str] = []
 THEOREMS: Dict[str, str] = {}       # filled in below (kept next to the list in Props/C20.v)
@@ -673,4 +674,5 @@ THEOREMS.update({
     "C20_scale_invariant_exact": "full",
     "C20_scale_invariant_exact_ex": "example",
     "C20_scale_invariant_float_conversion_refuted": "refuted",
+    "C20e2e_numbers_from_program": "full", "C20_compiled_no_index_error": "full", "C20_compiled_scaled_no_index_error": "full", "C20_compiled_lint_total": "full", "C20_compiled_lint_total_syntactic": "full", "C20_compiled_no_zero_division": "full", "C20_compiled_scaled_lint_total": "full", "C20_compiled_iter_scaled_lint_total": "full", "C20_source_lint_total": "full", "C20_source_scaled_lint_total": "full", "C20e2e_hyps": "example", "C20e2e_instance": "example",
 })
